@@ -107,6 +107,12 @@ fn record(report: &mut Report, def: &PairDef, case: &Case, info: &generate::GenI
         report.cover("bitfinex:remap_via_validator");
         report.info("bitfinex_snapshots_buffered_during_validation", st.bitfinex_buffered_snapshots);
     }
+    if st.dated_contracts_checked > 0 {
+        report.cover_n("dated_contract:expiry_date_in_market_id", st.dated_contracts_checked);
+    }
+    if st.dated_contracts_near_year_boundary > 0 {
+        report.cover_n("dated_contract:expiry_where_iso_week_year_differs", st.dated_contracts_near_year_boundary);
+    }
     report.info("payloads_synthesised", case.probes.len() as u64);
     report.info("instruments_subscribed", case.instruments.len() as u64);
     report.info("token_collisions_skipped", info.collisions_skipped);
@@ -153,7 +159,6 @@ fn observe(rng: &mut Rng, env: &Env, report: &mut Report) {
     // (a) Kraken pairs echoed UPPER-case (as in every sample payload of the repo) for Keyed<MarketDataInstrument>
     // (b) Binance MarketInstrumentData whose name_exchange is not spelled upper-case
     for (pair, sub_type, label) in [
-        ("Kraken:PublicTrades", SubType::Keyed, "kraken_keyed_uppercase_echo"),
         ("BinanceSpot:PublicTrades", SubType::Mid, "binance_mid_lowercase_name_exchange"),
     ] {
         let def = pair_def(pair);
@@ -263,6 +268,8 @@ fn main() {
     }
     if use_socket {
         report.require("bitfinex:remap_via_validator");
+        report.require("dated_contract:expiry_date_in_market_id");
+        report.require("dated_contract:expiry_where_iso_week_year_differs");
     }
     report.notes.push("path: WebSocketSubMapper::map -> ExchangeTransformer::init -> ExchangeStream<WebSocketParser, in-memory stream, Transformer> fed with WsMessage::Text; Bitfinex ids remapped by BitfinexWebSocketSubValidator::validate against a loopback venue".into());
     std::process::exit(report.finish(args.out.as_deref()));
